@@ -221,4 +221,102 @@ def c04(ctx):
                       'distinct = distinct (class sequence, mode, outcome).')
 
 
-CHECKS = {'C01': c01, 'C02': c02, 'C04': c04, 'C07': c07}
+def _c09_records(ctx, thorough):
+    from . import drv_entry as d
+    cases = list(d.all_cases(3))
+    reps = 6 if thorough else 2
+    chunks = [(cases[k:k + 400], ctx.seed * 7919 + k, reps) for k in range(0, len(cases), 400)]
+    out = core.pool_map(d.grammar_records, chunks, chunksize=1)
+    if thorough:
+        rng = random.Random(ctx.seed)
+        c4 = [c for c in d.all_cases(4) if len(c[1]) == 4]
+        c4 = rng.sample(c4, 40000)
+        out += core.pool_map(d.grammar_records, [(c4[k:k + 400], ctx.seed + k, 1)
+                                                 for k in range(0, len(c4), 400)], chunksize=1)
+    nv = 20000 if thorough else 1500
+    out += core.pool_map(d.near_valid_records, [(ctx.seed * 100 + k, nv) for k in range(16)], chunksize=1)
+    recs = [r for o in out for r in o]
+    return recs, len(cases)
+
+
+def c09(ctx):
+    from . import drv_codec as dc
+    thorough = ctx.tier == 'thorough'
+    ctx.mc('EntryLine', 'MC_EntryLine.cfg' if thorough else 'MC_EntryLine_quick.cfg', timeout=3000)
+    ctx.mc('EntryLine', 'MC_EntryLine_F4.cfg', expect_violation='Rejects', coverage=False)
+    ctx.mc('EntryLine', 'MC_EntryLine_F5.cfg', expect_violation='Total', coverage=False)
+    recs, ncases = _c09_records(ctx, thorough)
+    metas = [{'text': r.pop('text'), 'exc': r.pop('exc')} for r in recs]
+    for k in range(0, len(recs), 120000):
+        ctx.judge('TraceEntryLine', 'TraceEntryLine.cfg', recs[k:k + 120000], metas[k:k + 120000],
+                  {'driver': 'grammar/near-valid', 'module': 'TraceEntryLine'},
+                  sig=lambda r: hash((json_key(r['lines']), r['obs']['kind'])))
+    ctx.extra['grammar_cases'] = ncases
+    ctx.sample({'text': metas[7]['text'], 'lines': recs[7]['lines'], 'obs': recs[7]['obs']})
+    # every escape form over its full value range
+    step = 1 if thorough else 7
+    jobs = [('x', 0, 256, 1)] + [('u', a, min(a + 8192, 65536), 1) for a in range(0, 65536, 8192)]
+    jobs += [('U', a, min(a + 65536, 0x110000), step) for a in range(0, 0x110000, 65536)]
+    jobs += [('U', 0x10FFF0, 0x110010, 1), ('U', 0xD7F0, 0xE010, 1)]
+    jobs += [('U', 0x110000, 0xFFFFFFFF, 9999991 if not thorough else 99991),
+             ('U', 0x7FFFFFF0, 0x80000010, 1), ('U', 0xFFFFFFF0, 0x100000000, 1)]
+    erecs = [r for o in core.pool_map(dc.escape_records, jobs, chunksize=1) for r in o]
+    ctx.judge('TraceCodec', 'TraceCodec.cfg', erecs, None, {'module': 'TraceCodec'},
+              sig=lambda r: hash((r['form'], r['lo'], r['hi'])))
+    ctx.extra['escape_values_tried'] = sum(r['n'] for r in erecs)
+    ctx.assumptions += ['field classification (harness) is the abstraction function',
+                        'lenient numeric / timestamp spellings and surrogate escapes: either outcome']
+    return ctx.finish(rule='EntryLine.tla decision table (tag x up to 3-4 fields x 11 field shapes) checked by TLC; '
+                      'every case concretised (several concrete strings per shape, separators, final newline) and '
+                      'loaded by the real parser; one-character edits of valid lines; escape forms over the full '
+                      'value range.  distinct = distinct (classified line structure, outcome).')
+
+
+def json_key(x):
+    import json
+    return json.dumps(x, sort_keys=True)
+
+
+def c08(ctx):
+    from . import drv_codec as dc
+    thorough = ctx.tier == 'thorough'
+    res = ctx.mc('PathCodec', 'MC_PathCodec_fixed3.cfg' if thorough else 'MC_PathCodec_fixed.cfg', timeout=3000)
+    table = tlc.parse_json_prints(res['out'])[0]
+    ctx.mc('PathCodec', 'MC_PathCodec_F12.cfg', expect_violation='Storable', coverage=False)
+    # every code point, four contexts, split big intervals for parallelism
+    jobs = []
+    for iv in table:
+        lo = iv['lo']
+        while lo <= iv['hi']:
+            hi = min(iv['hi'], lo + 49999)
+            for cx in ('alone', 'hex', 'digits', 'xesc'):
+                jobs.append(({'lo': lo, 'hi': hi, 'c': iv['c']}, cx))
+            lo = hi + 1
+    recs = core.pool_map(dc.interval_records, jobs, chunksize=1)
+    ctx.extra['code_points_tried'] = sum(r['hi'] - r['lo'] + 1 for r in recs)
+    ctx.sample({'interval': recs[20]})
+    n = 3000 if thorough else 150
+    rt = [r for o in core.pool_map(dc.roundtrip_records, [(ctx.seed * 64 + k, n, True) for k in range(16)],
+                                   chunksize=1) for r in o]
+    ctx.sample({'roundtrip': {'before': rt[3]['before'][:2], 'via': rt[3]['via']}})
+    # canonical fixed point on every text the C09 generators produce that the parser accepts
+    c9, _ = _c09_records(ctx, False)
+    texts = [r['text'] for r in c9 if r['obs']['kind'] == 'entry']
+    fp = [r for o in core.pool_map(dc.fixedpoint_records, [texts[k:k + 500] for k in range(0, len(texts), 500)],
+                                   chunksize=1) for r in o]
+    allrecs = recs + rt + fp
+    metas = [{'text': r.pop('text', None)} for r in allrecs]
+    ctx.judge('TraceCodec', 'TraceCodec.cfg', allrecs, metas, {'module': 'TraceCodec'},
+              sig=lambda r: hash(json_key({k: v for k, v in r.items() if k != 'id'})))
+    ctx.extra['roundtrips'] = len(rt)
+    ctx.extra['fixedpoint_texts'] = len(fp)
+    ctx.assumptions += ['the interval table is the specification; Python str.isspace()/split() is the splitter',
+                        'absolute paths ("/" alone) are outside the writer domain (rejected by C09)']
+    return ctx.finish(rule='PathCodec.tla (table partition, Enc/Dec round trip, separator-freeness, storability) by TLC; '
+                      'the real codec on EVERY code point 0..0x10FFFF alone and between hex-like neighbours against the '
+                      'exported table; random entry lists (8 tags, hostile alphabet incl. surrogates, sizes to 2**64, '
+                      '0..10 checksums) through StringIO and real plain/gz/bz2/lzma/xz files; canonical fixed point of '
+                      'accepted texts.  distinct = distinct records.')
+
+
+CHECKS = {'C01': c01, 'C02': c02, 'C04': c04, 'C07': c07, 'C08': c08, 'C09': c09}
